@@ -186,6 +186,26 @@ theorem vel_eq_sigma_z (s : Setup) (src : Frame) (e : Option Rat) (sig : List Ra
 
 example : zeroMomentumFlag Engine.lammps none = false ∧ Engine.lammps ≠ Engine.ase := by decide
 
+/-! ## 2b. which setting decides: the entry if present, else the engine's OWN default -/
+
+/-- **Effective flag.** `zero_momentum` in effect = the entry of the settings that were handed in when
+    present, otherwise the engine's own default — `True` for CP2K and `False` for GROMACS (infretis_genvel),
+    LAMMPS, ASE and TurtleMD; no engine's default is visible to another engine. -/
+theorem zero_momentum_flag_rule (e : Engine) (zm : Option Bool) :
+    zeroMomentumFlag e zm = (match zm with | some b => b | none => engineDefaultZeroMomentum e)
+    ∧ (engineDefaultZeroMomentum e = true ↔ e = .cp2k) := by
+  cases e <;> cases zm <;> simp [zeroMomentumFlag, engineDefaultZeroMomentum]
+
+/-- the result depends on the settings only through that flag -/
+theorem modify_depends_on_flag_only (vk vr : Variant) (s : Setup) (src : Frame) (e : Option Rat)
+    (zm zm' : Option Bool) (sig : List Rat) (z : List (List Rat))
+    (h : zeroMomentumFlag s.engine zm = zeroMomentumFlag s.engine zm') :
+    modifyVelocities vk vr s src e zm sig z = modifyVelocities vk vr s src e zm' sig z := by
+  cases hs : s.engine <;> simp_all [modifyVelocities, modifyNumpy, modifyAse]
+
+example : zeroMomentumFlag .turtlemd none = false ∧ zeroMomentumFlag .cp2k none = true
+    ∧ zeroMomentumFlag .turtlemd none = zeroMomentumFlag .turtlemd (some false) := by decide
+
 /-! ## 3. zero total momentum -/
 
 /-- **Zero momentum.** After `reset_momentum`, Σᵢ mᵢ vᵢⱼ = 0 in every Cartesian component j, for
